@@ -517,4 +517,14 @@ example : (decodeGate 0x00000000000000000000ef0300081000#128) =
       reserved := 0#32 } := by decide
 example : Spec.canon 0x7fff00001000 := by decide
 
+example : Table.new.slots.length = 256 ∧
+    (Table.new.setAt (gateByteOffset 33) ⟨1#16, ⟨8#16, 0x8e00#16⟩, 0#16, 0#32, 0#32⟩).getAt (gateByteOffset 33)
+      = some ⟨1#16, ⟨8#16, 0x8e00#16⟩, 0#16, 0#32, 0#32⟩ := by decide +kernel
+example : ∀ op ∈ [Idt.Op.setPresent false, .setStackIndex 3#16], ∀ a' cs', op ≠ .setHandlerAddr a' cs' := by
+  intro op h a' cs'
+  simp at h
+  rcases h with h | h <;> subst h <;> simp
+example : (Entry.final ⟨false⟩ Entry.missing [.setHandlerAddr 0xffffffff80001234#64 0x33#16, .setPresent false,
+    .setStackIndex 3#16]).handlerAddr = 0xffffffff80001234#64 := by decide
+
 end X86.C12
